@@ -601,6 +601,24 @@ def gen_res():
     scenario("res-12", "res", doc(css0, '<p><img src="really-a-png.svg" alt=alt1> <img src="really-a-svg.png" alt=alt2></p>' + text, '<link rel=stylesheet href="nomime.css"><link rel=stylesheet href="wrong.css">'),
              files=files, expect=dict(exp0, fault_words={"really-a-png.svg": ["alt1"], "really-a-svg.png": ["alt2"]}))
 
+    # 14: unusual-but-plausible attribute values read by the SVG / HTML attribute readers
+    odd_svg = ('<svg xmlns="http://www.w3.org/2000/svg" width="60" height="40" viewBox="0 0 60 40" preserveAspectRatio="xMid">'
+               '<svg x="1" y="1" width="20" height="10" viewBox="0 0 10" preserveAspectRatio="none"><rect width="5" height="5"/></svg>'
+               '<svg x="1" y="12" width="20" height="10" viewBox="0 0 10 10" preserveAspectRatio="xMaxYMin slice"><rect width="5" height="5" rx="9"/></svg>'
+               '<g transform="translate(5) scale(2 , 1) rotate(10 1 1) skewY(5) matrix(1 0 0 1 0 0)"><path d="M1,1 l2-2 .5.5 1e1,0 z"/><polyline points="1,1 2"/><polygon points=""/><line x1="1"/>'
+               '<ellipse rx="0" ry="4"/><circle r="-1"/><rect width="10%" height="1em" x="1ex" fill="rgb(1,2)" stroke="#12" stroke-width="-1" stroke-dasharray="1, ,2" opacity="2"/></g>'
+               '<text x="1 2 3" y="" dx="a" font-size="0" text-anchor="middle">sv03</text></svg>')
+    files = {"odd.svg": (odd_svg, dict(mime="image/svg+xml", kind="svg"))}
+    for i, par in enumerate(["xMid", "x", "", "none", "xMinYMax", "xMidYMid  slice", "defer xMidYMid", "slice"]):
+        files["par%d.svg" % i] = ('<svg xmlns="http://www.w3.org/2000/svg" width="20" height="10" viewBox="0 0 10 10" preserveAspectRatio="%s"><rect width="5" height="5"/></svg>' % par, dict(mime="image/svg+xml", kind="svg"))
+    pars = " ".join('<img src="par%d.svg" alt="pa%02d">' % (i, i) for i in range(8))
+    body = ("<p>%s</p>" % pars +'<table><colgroup><col span="0"><col span="x"></colgroup><tr><td colspan="0">o001</td><td rowspan="0">o002</td><td colspan="abc" rowspan="-1">o003</td><td colspan="1000">o004</td></tr><tr><td>o005</td></tr></table>'
+            '<ol start="x" reversed><li value="z">o006</li><li>o007</li></ol><ol start="-3"><li>o008</li></ol>'
+            '<p><img src="odd.svg" alt="alt1" width="-" height="1e"> <img src="odd.svg" width="0" height="0" alt="alt2"> <font size="+9" color="#zz">o009</font> <font size="">o010</font></p>'
+            '<hr size="x" width="50%%"><pre width="0">o011</pre><p align="bogus" dir="x" lang="">o012</p>' + text)
+    scenario("res-14", "res", doc(css0, body), files=files,
+             expect=dict(exp0, sentinels=W + ["o%03d" % i for i in range(1, 13)], fault_words=dict({"odd.svg": ["alt1", "alt2", "sv03"]}, **{"par%d.svg" % i: ["pa%02d" % i] for i in range(8)})))
+
     # 13: underlined links with both engines (text decoration path), pre / tabs / rtl text
     css = css0 + "a { text-decoration: underline }\n.o { text-decoration: overline line-through }\npre { font-family: ahem; margin: 0 }\n"
     body = '<p><a href="http://example.org/">u001 u002</a> <span class=o>u003</span></p><pre>q001\tq002\nq003</pre>' + text
